@@ -93,11 +93,11 @@ def run(c: Check):
                               "result": "expected-violation:ShutdownReturnsByDeadline"})
 
     # ---- the real servers
-    env = {"VERIF_EXT5_REPS": 5 if th else 1, "VERIF_EXT5_MAXK": 5 if th else 3, "VERIF_EXT5_RACES": 4 if th else 2}
+    env = {"VERIF_EXT5_REPS": 8 if th else 1, "VERIF_EXT5_MAXK": 5 if th else 3, "VERIF_EXT5_RACES": 4 if th else 2}
     out, _ = c.go_harness("internal/dnsserver", "^TestVerifEXT5$", files=["ext5_test.go"], env=env, timeout=1500)
     ev = read_ndjson(out)
     if th:
-        env2 = dict(env, VERIF_EXT5_REPS=2, VERIF_EXT5_MAXK=4)
+        env2 = dict(env, VERIF_EXT5_REPS=3, VERIF_EXT5_MAXK=4)
         out2, _ = c.go_harness("internal/dnsserver", "^TestVerifEXT5$", files=["ext5_test.go"], env=env2, race=True,
                                timeout=1800)
         ev += read_ndjson(out2)
